@@ -39,7 +39,7 @@ class Fn:
     upvars: dict = field(default_factory=dict)   # closure bodies: captured field index -> (source name, by_ref)
 
 
-def dump_mir(repo: Path, features_default: bool = True, timeout=600) -> str:
+def dump_mir(repo: Path, features_default: bool = True, timeout=600, features: str = "") -> str:
     """Copy the workspace to a scratch directory and dump rcgen's MIR (rustc nightly, -Zunpretty=mir)."""
     scratch = Path(tempfile.mkdtemp(prefix="rcgen-mir-", dir=os.environ.get("VERIF_SCRATCH") or tempfile.gettempdir()))
     try:
@@ -52,6 +52,8 @@ def dump_mir(repo: Path, features_default: bool = True, timeout=600) -> str:
         cmd = ["cargo", "+nightly", "rustc", "--offline", "-p", "rcgen", "--lib"]
         if not features_default:
             cmd.append("--no-default-features")
+        if features:
+            cmd += ["--features", features]
         cmd += ["--", "-Zunpretty=mir", "-C", "debug-assertions=off", "-C", "overflow-checks=on"]
         env = dict(os.environ)
         env["CARGO_NET_OFFLINE"] = "true"
